@@ -35,7 +35,7 @@ def judge_stream(c, src, seq, pre_stream, pre_covered, emitted, bad):
     seg = eff_seg(c)
     for d in emitted:
         t = d["T"]
-        want = dict(src=[1, w], dst=[2, w], seq=[seq, c["seqw"]], mode="ACKNOWLEDGED" if c["mode"] == "ack" else "UNACKNOWLEDGED",
+        want = dict(src=[c["idv_s"], w], dst=[c["idv_d"], w], seq=[seq + c["seq0"], c["seqw"]], mode="ACKNOWLEDGED" if c["mode"] == "ack" else "UNACKNOWLEDGED",
                     crc="WITH_CRC" if c["crc_flag"] else "NO_CRC", dir="TOWARDS_RECEIVER", large="NORMAL")
         for k, val in want.items():
             if d[k] != val:
@@ -285,6 +285,9 @@ def configs(tier):
     # id / sequence number widths
     for ws, wd, sw, mode, crc in itertools.product((1, 2, 4, 8), (1, 2, 4, 8), (1, 2, 4), ("unack", "ack"), (False, True)):
         add(idw_s=ws, idw_d=wd, seqw=sw, mode=mode, crc_flag=crc, size=5, seg=2, closure=True, mpl=64)
+    # entity ids and sequence numbers at the top of their width
+    for ws, wd, sw, mode in itertools.product((1, 2, 4, 8), (1, 2, 4, 8), (1, 2, 4), ("unack", "ack")):
+        add(idw_s=ws, idw_d=wd, seqw=sw, idv_s=(1 << (8 * ws)) - 1, idv_d=(1 << (8 * wd)) - 2, seq0=(1 << (8 * sw)) - 1, mode=mode, size=5, seg=2, closure=True, mpl=64)
     # closure, metadata only
     for mode, closure, md in itertools.product(("unack", "ack"), (False, True), (False, True)):
         add(mode=mode, closure=closure, md_only=md, size=0 if md else 3, seg=2)
